@@ -95,6 +95,10 @@ CONSTANTS
   SimCodes,      \* expected exit codes of the simulated task
   SimUnmet,      \* BOOLEAN values: the simulated task finds unmet dependencies
   MaxSimPoll,    \* bound on poll cycles of the simulator
+  SimStateLast,  \* FALSE: the code as it is (_run sets _real_state = finished BEFORE the return code: finding SimTornPoll);
+                 \* TRUE: the repaired _run (out/proposed_fixes/G04_simulator_torn_poll.diff): the state is published last
+  Fine,          \* TRUE: statement-level steps of threads that do not change the modelled state are steps of their own (they move the hidden
+                 \* position of the thread); FALSE: a thread step runs until a statement changes the state / blocks / ends
   TrackRes,      \* TRUE: `res` remembers the last API call and its result (properties); FALSE: the result is only on the printed transition
   Emit           \* TRUE: print every transition <<from, label, to>> (spec -> code replay)
 
@@ -259,7 +263,13 @@ OWake(o) ==
   /\ opc[o] = "evwait" /\ ev
   /\ opc' = [opc EXCEPT ![o] = "done"] /\ seen' = [seen EXCEPT ![o] = <<rc, epoch>>]
   /\ UNCHANGED <<k, st, disp, rc, lock, wpc, fin, epoch, ev, sigs, late, lost, res, monVars>>
-OStep(o) == OCheck(o) \/ OWait(o) \/ OWake(o)
+OPeek(o) ==       \* Fine: the thread has read _z_finished_date (None) and has not yet called wait()
+  /\ Fine /\ opc[o] = "new" /\ ~fin /\ opc' = [opc EXCEPT ![o] = "saw"]
+  /\ UNCHANGED <<k, st, disp, rc, lock, wpc, fin, epoch, ev, seen, sigs, late, lost, res, monVars>>
+OGo(o) ==
+  /\ opc[o] = "saw" /\ opc' = [opc EXCEPT ![o] = "chk"]
+  /\ UNCHANGED <<k, st, disp, rc, lock, wpc, fin, epoch, ev, seen, sigs, late, lost, res, monVars>>
+OStep(o) == OCheck(o) \/ OWait(o) \/ OWake(o) \/ OPeek(o) \/ OGo(o)
 
 \* ---- the death / event monitor attached to the task
 TestArms(v) == IF MonKind = "death" THEN v = "True" ELSE v = "False"     \* `LifeCheck() is True` / `test() is False`
@@ -306,22 +316,31 @@ TaskInit == TaskIdle /\ MonIdle /\ PerIdle /\ SimIdle /\ TabIdle
 Frozen1 == UNCHANGED <<perVars, simVars, tabVars>>
 TaskNext ==
   /\ Frozen1
-  /\ \/ \E d \in Disps : Create(d, TRUE) /\ EdgeT(<<"Create", d>>)
-     \/ Create("die", FALSE) /\ EdgeT(<<"Create", "fail">>)
-     \/ \E c \in ExitCodes : ProcExit(c) /\ EdgeT(<<"ProcExit", c>>)
-     \/ \E s \in ExtSignals : ExtSignal(s) /\ EdgeT(<<"ExtSignal", s>>)
-     \/ \E w \in {"kill", "terminate"} : KillCall(w) /\ EdgeT(<<"Call", w, NoRes>>)
-     \/ \E f \in {"poll", "isAlive", "exitReason", "status"} : Query(f) /\ EdgeT(<<"Call", f, ViewOf(RcAfterPoll)>>)
-     \/ Waiter /\ EdgeT(<<"W", 0>>)
-     \/ \E o \in Observers : WaitCall(o) /\ EdgeT(<<"WaitCall", o>>)
-     \/ \E o \in Observers : OStep(o) /\ EdgeT(<<"O", o>>)
-     \/ MonStart /\ EdgeT(<<"MonStart", 0>>)
-     \/ Cancel /\ EdgeT(<<"Cancel", 0>>)
-     \/ Fire /\ EdgeT(<<"Fire", 0>>)
-     \/ TChk /\ EdgeT(<<"T", "-">>)
-     \/ \E v \in (IF TestKind = "task" THEN {"-"} ELSE TestVals) : TTest(v) /\ EdgeT(<<"T", v>>)
-     \/ TDecide /\ EdgeT(<<"T", "-">>)
-     \/ \E out \in ActOuts \ {"fs"} : TAct(out) /\ EdgeT(<<"T", out>>)
+  /\ \/ \E d \in Disps : Create(d, TRUE) /\ EdgeT(<<"Create", d, 0, "Create">>)
+     \/ Create("die", FALSE) /\ EdgeT(<<"Create", "fail", 0, "CreateFails">>)
+     \/ \E c \in ExitCodes : ProcExit(c) /\ EdgeT(<<"ProcExit", c, 0, "ProcExit">>)
+     \/ \E s \in ExtSignals : ExtSignal(s) /\ EdgeT(<<"ExtSignal", s, 0, "ExtSignal">>)
+     \/ \E w \in {"kill", "terminate"} : KillCall(w) /\ EdgeT(<<"Call", w, NoRes, "KillCall">>)
+     \/ \E f \in {"poll", "isAlive", "exitReason", "status"} : Query(f) /\ EdgeT(<<"Call", f, ViewOf(RcAfterPoll), "Query">>)
+     \/ WStart /\ EdgeT(<<"W", 0, 0, "WStart">>)
+     \/ WWake /\ EdgeT(<<"W", 0, 0, "WWake">>)
+     \/ WRc /\ EdgeT(<<"W", 0, 0, "WRc">>)
+     \/ WFin /\ EdgeT(<<"W", 0, 0, "WFin">>)
+     \/ WEpoch /\ EdgeT(<<"W", 0, 0, "WEpoch">>)
+     \/ WSet /\ EdgeT(<<"W", 0, 0, "WSet">>)
+     \/ \E o \in Observers : WaitCall(o) /\ EdgeT(<<"WaitCall", o, 0, "WaitCall">>)
+     \/ \E o \in Observers : OCheck(o) /\ EdgeT(<<"O", o, 0, "OCheck">>)
+     \/ \E o \in Observers : OWait(o) /\ EdgeT(<<"O", o, 0, "OWait">>)
+     \/ \E o \in Observers : OWake(o) /\ EdgeT(<<"O", o, 0, "OWake">>)
+     \/ \E o \in Observers : OPeek(o) /\ EdgeT(<<"O", o, 0, "OPeek">>)
+     \/ \E o \in Observers : OGo(o) /\ EdgeT(<<"O", o, 0, "OGo">>)
+     \/ MonStart /\ EdgeT(<<"MonStart", 0, 0, "MonStart">>)
+     \/ Cancel /\ EdgeT(<<"Cancel", 0, 0, "Cancel">>)
+     \/ Fire /\ EdgeT(<<"Fire", 0, 0, "Fire">>)
+     \/ TChk /\ EdgeT(<<"T", "-", 0, "TChk">>)
+     \/ \E v \in (IF TestKind = "task" THEN {"-"} ELSE TestVals) : TTest(v) /\ EdgeT(<<"T", v, 0, "TTest">>)
+     \/ TDecide /\ EdgeT(<<"T", "-", 0, "TDecide">>)
+     \/ \E out \in ActOuts \ {"fs"} : TAct(out) /\ EdgeT(<<"T", out, 0, "TAct">>)
 
 TaskSpec == TaskInit /\ [][TaskNext]_vars
 TaskFair == TaskSpec /\ WF_vars(Frozen1 /\ Waiter) /\ \A o \in Observers : WF_vars(Frozen1 /\ OStep(o))
@@ -333,7 +352,7 @@ MonFair == TaskFair /\ WF_vars(Frozen1 /\ Fire) /\ WF_vars(Frozen1 /\ TChk) /\ W
 TaskTypeOK ==
   /\ k \in {"none", "failed", "run", "zombie", "reaped"}
   /\ wpc \in {"none", "new", "blocked", "sys", "post", "fin", "epoch", "done"}
-  /\ \A o \in Observers : opc[o] \in {"idle", "new", "chk", "evwait", "done"}
+  /\ \A o \in Observers : opc[o] \in {"idle", "new", "saw", "chk", "evwait", "done"}
   /\ dm \in {"off", "tick", "armed", "stopped", "fired", "died"}
   /\ tpc \in {"none", "new", "chk", "tst", "act"}
 ViewConsistent ==       \* returncode None iff alive iff no exit reason iff status running; finished iff Success
@@ -349,7 +368,7 @@ RcStable == [][rc # NoRc => rc' = rc]_vars
 StatusStable == [][(k \in {"zombie", "reaped"}) => st' = st]_vars
 NoSignalAfterKnownDead == [][rc # NoRc => (sigs' = sigs /\ late' = late /\ lost' = lost)]_vars
 ExitLeadsToEvent == (k = "zombie") ~> ev
-WaitersReturn == \A o \in Observers : (opc[o] \in {"new", "chk", "evwait"} /\ k # "run") ~> (opc[o] = "done")
+WaitersReturn == \A o \in Observers : (opc[o] \in {"new", "saw", "chk", "evwait"} /\ k # "run") ~> (opc[o] = "done")
 HardKillLeadsToDeath == (Len(sigs) > 0 /\ disp = "die") ~> (rc # NoRc)
 
 \* ---- named deviations: strong properties that do NOT hold
@@ -441,12 +460,17 @@ PerBound == pnorm < MaxAct /\ ppoll < MaxPoll
 
 PerNext ==
   /\ Frozen2
-  /\ \/ PStartCall /\ EdgeP(<<"Start", "-">>)
-     \/ PCancel /\ EdgeP(<<"Cancel", "-">>)
-     \/ PerBound /\ PThread /\ EdgeP(<<"P", "-">>)
-     \/ \E out \in ActOuts : PerBound /\ PAct(out) /\ EdgeP(<<"P", out>>)
-     \/ \E b \in BOOLEAN : PerBound /\ PInterval(b) /\ EdgeP(<<"P", IF b THEN "now" ELSE "later">>)
-     \/ PerBound /\ PElapse /\ EdgeP(<<"Elapse", "-">>)
+  /\ \/ PStartCall /\ EdgeP(<<"Start", "-", 0, "PStartCall">>)
+     \/ PCancel /\ EdgeP(<<"Cancel", "-", 0, "PCancel">>)
+     \/ PerBound /\ PFirst /\ EdgeP(<<"P", "-", 0, "PFirst">>)
+     \/ PerBound /\ PEnter /\ EdgeP(<<"P", "-", 0, "PEnter">>)
+     \/ PerBound /\ PCond /\ EdgeP(<<"P", "-", 0, "PCond">>)
+     \/ PerBound /\ PWaitEnter /\ EdgeP(<<"P", "-", 0, "PWaitEnter">>)
+     \/ PerBound /\ PWaitWoken /\ EdgeP(<<"P", "-", 0, "PWaitWoken">>)
+     \/ PerBound /\ PCond2 /\ EdgeP(<<"P", "-", 0, "PCond2">>)
+     \/ \E out \in ActOuts : PerBound /\ PAct(out) /\ EdgeP(<<"P", out, 0, "PAct">>)
+     \/ \E b \in BOOLEAN : PerBound /\ PInterval(b) /\ EdgeP(<<"P", IF b THEN "now" ELSE "later", 0, "PInterval">>)
+     \/ PerBound /\ PElapse /\ EdgeP(<<"Elapse", "-", 0, "PElapse">>)
 
 PerSpec == PerInit /\ [][PerNext]_vars
 PerFair == PerSpec /\ WF_vars(Frozen2 /\ PerBound /\ PThread) /\ WF_vars(Frozen2 /\ PerBound /\ PElapse)
@@ -491,7 +515,7 @@ SimInit == TaskIdle /\ MonIdle /\ PerIdle /\ SimIdle /\ TabIdle
 Frozen3 == UNCHANGED <<taskVars, monVars, perVars, tabVars>>
 
 SimAlive == sos \in {"submitted", "executing"}
-SimLockHeld == srun \in {"x1", "u1", "e2", "e3", "f1", "k1"}
+SimLockHeld == srun \in {"x1", "u1", "e2", "e2n", "e3", "f1", "k1", "e4"}
 SimReason(r) == IF r = NoRc THEN "raised TypeError" ELSE ReasonSim(r)
 \* <<isAlive(), returncode, exitReason, status>>
 SimView == IF SimAlive THEN <<"T", sor, "None", "running">> ELSE <<"F", sor, SimReason(sor), StatusOf(IF sor = NoRc THEN 1 ELSE sor)>>
@@ -509,15 +533,24 @@ SRunExec ==
                ELSE srr' = srr /\ srun' = "cwait" /\ snotified' = FALSE
   /\ UNCHANGED <<srs, sfile>>
 SRunResume ==     \* the execution time has passed, or kill() notified the condition
-  /\ srun \in {"cwait", "u1"} /\ srs' = "finished" /\ srun' = "e2" /\ UNCHANGED <<srr, snotified, sfile>>
+  /\ srun \in {"cwait", "u1"}
+  /\ IF ~SimStateLast THEN srs' = "finished" /\ srun' = "e2" /\ UNCHANGED <<srr, sfile>>
+     ELSE IF srr = NoRc THEN srr' = scode /\ srun' = "e3" /\ UNCHANGED <<srs, sfile>>
+     ELSE sfile' = "killed" /\ srun' = "k1" /\ UNCHANGED <<srs, srr>>
+  /\ UNCHANGED snotified
 SRunCode ==
-  /\ srun = "e2"
+  /\ ~SimStateLast /\ srun = "e2"
   /\ IF srr = NoRc THEN srr' = scode /\ srun' = "e3" /\ sfile' = sfile
                    ELSE srr' = srr /\ srun' = "k1" /\ sfile' = "killed"
   /\ UNCHANGED <<srs, snotified>>
+SRunPeek == Fine /\ srun = "e2" /\ srr = NoRc /\ srun' = "e2n" /\ UNCHANGED <<srs, srr, snotified, sfile>>    \* `if _real_return_code is None` passed
+SRunCodeLate == srun = "e2n" /\ srr' = scode /\ srun' = "e3" /\ UNCHANGED <<srs, snotified, sfile>>           \* ... a kill() in between is overwritten
 SRunFile == srun = "e3" /\ sfile' = "finished" /\ srun' = "f1" /\ UNCHANGED <<srs, srr, snotified>>
-SRunEnd == srun \in {"f1", "k1"} /\ srun' = "done" /\ UNCHANGED <<srs, srr, snotified, sfile>>
-SRun == /\ (SRunStart \/ SRunWake \/ SRunExec \/ SRunResume \/ SRunCode \/ SRunFile \/ SRunEnd)
+SRunState == SimStateLast /\ srun \in {"f1", "k1"} /\ srs' = "finished" /\ srun' = "e4" /\ UNCHANGED <<srr, snotified, sfile>>
+SRunLast == IF SimStateLast THEN {"e4"} ELSE {"f1", "k1"}
+SRunEnd == srun \in SRunLast \cup {"rel"} /\ srun' = "done" /\ UNCHANGED <<srs, srr, snotified, sfile>>
+SRunRel == Fine /\ srun \in SRunLast /\ srun' = "rel" /\ UNCHANGED <<srs, srr, snotified, sfile>>     \* the lock is released, _run has not yet returned
+SRun == /\ (SRunStart \/ SRunWake \/ SRunExec \/ SRunResume \/ SRunCode \/ SRunFile \/ SRunState \/ SRunEnd \/ SRunRel \/ SRunPeek \/ SRunCodeLate)
         /\ UNCHANGED <<sos, sor, sfe, spoll, snpoll, scode, sunmet, skills, scall, swait, sseen>>
 
 SPollStep ==
@@ -532,10 +565,16 @@ SPollStep ==
           [] OTHER -> IF SimAlive THEN spoll' = "sleep" /\ UNCHANGED <<sos, sor, sfe>>
                                   ELSE spoll' = "done" /\ sfe' = TRUE /\ UNCHANGED <<sos, sor>>
   /\ UNCHANGED <<srs, srr, srun, snpoll, scode, sunmet, snotified, skills, sfile, scall, swait, sseen>>
+SPollStmt ==       \* Fine: a statement of poll() that finds nothing to copy
+  /\ Fine
+  /\ \/ spoll = "new" /\ sor = srr /\ spoll' = "a"
+     \/ spoll = "a" /\ sos = srs /\ spoll' = "b"
+     \/ spoll = "b" /\ sor = srr /\ spoll' = "c"
+  /\ UNCHANGED <<srs, srr, sos, sor, sfe, srun, snpoll, scode, sunmet, snotified, skills, sfile, scall, swait, sseen>>
 SPollNext ==
   /\ spoll = "sleep" /\ snpoll < MaxSimPoll /\ spoll' = "new" /\ snpoll' = snpoll + 1
   /\ UNCHANGED <<srs, srr, sos, sor, sfe, srun, scode, sunmet, snotified, skills, sfile, scall, swait, sseen>>
-SPoll == SPollStep \/ SPollNext
+SPoll == SPollStep \/ SPollNext \/ SPollStmt
 
 \* kill() / terminate() by a thread of the owner
 SKillCall(w) ==
@@ -563,25 +602,38 @@ SWaitStep ==
 SQuery == srs # "none" /\ UNCHANGED SS
 
 \* Condition.wait(exec_time) returns when notified or when the time is over; sleep(overhead) when the time is over
+SimRunHow == IF srun \in {"sleep", "cwait"} /\ ~(srun = "cwait" /\ snotified) THEN "timeout" ELSE "-"
+SimRest == UNCHANGED <<sos, sor, sfe, spoll, snpoll, scode, sunmet, skills, scall, swait, sseen>>
 SimNext ==
   /\ Frozen3
-  /\ \/ \E c \in SimCodes, u \in SimUnmet : SCreate(c, u) /\ EdgeS(<<"Create", c, u>>)
-     \/ SRun /\ EdgeS(<<"R", IF srun \in {"sleep", "cwait"} /\ ~(srun = "cwait" /\ snotified) THEN "timeout" ELSE "-", 0>>)
-     \/ SPoll /\ EdgeS(<<"P", IF spoll = "sleep" THEN "timeout" ELSE "-", 0>>)
-     \/ \E w \in {"kill", "terminate"} : SKillCall(w) /\ EdgeS(<<"Kill", w, 0>>)
-     \/ SKillStep /\ EdgeS(<<"K", "-", 0>>)
-     \/ SWaitCall /\ EdgeS(<<"WaitCall", "-", 0>>)
-     \/ SWaitStep /\ EdgeS(<<"O", "-", 0>>)
-     \/ SQuery /\ EdgeS(<<"View", "-", SimView>>)
+  /\ \/ \E c \in SimCodes, u \in SimUnmet : SCreate(c, u) /\ EdgeS(<<"Create", c, u, "SCreate">>)
+     \/ SRunStart /\ SimRest /\ EdgeS(<<"R", SimRunHow, 0, "SRunStart">>)
+     \/ SRunWake /\ SimRest /\ EdgeS(<<"R", SimRunHow, 0, "SRunWake">>)
+     \/ SRunExec /\ SimRest /\ EdgeS(<<"R", SimRunHow, 0, "SRunExec">>)
+     \/ SRunResume /\ SimRest /\ EdgeS(<<"R", SimRunHow, 0, "SRunResume">>)
+     \/ SRunCode /\ SimRest /\ EdgeS(<<"R", SimRunHow, 0, "SRunCode">>)
+     \/ SRunFile /\ SimRest /\ EdgeS(<<"R", SimRunHow, 0, "SRunFile">>)
+     \/ SRunState /\ SimRest /\ EdgeS(<<"R", SimRunHow, 0, "SRunState">>)
+     \/ SRunEnd /\ SimRest /\ EdgeS(<<"R", SimRunHow, 0, "SRunEnd">>)
+     \/ (SRunRel \/ SRunPeek \/ SRunCodeLate) /\ SimRest /\ EdgeS(<<"R", SimRunHow, 0, "SRunFine">>)
+     \/ SPollStep /\ EdgeS(<<"P", "-", 0, "SPollStep">>)
+     \/ SPollNext /\ EdgeS(<<"P", "timeout", 0, "SPollNext">>)
+     \/ SPollStmt /\ EdgeS(<<"P", "-", 0, "SPollStmt">>)
+     \/ \E w \in {"kill", "terminate"} : SKillCall(w) /\ EdgeS(<<"Kill", w, 0, "SKillCall">>)
+     \/ SKillStep /\ EdgeS(<<"K", "-", 0, "SKillStep">>)
+     \/ SWaitCall /\ EdgeS(<<"WaitCall", "-", 0, "SWaitCall">>)
+     \/ SWaitStep /\ EdgeS(<<"O", "-", 0, "SWaitStep">>)
+     \/ SQuery /\ EdgeS(<<"View", "-", SimView, "SQuery">>)
 SimSpec == SimInit /\ [][SimNext]_vars
 SimFair == SimSpec /\ WF_vars(Frozen3 /\ SRun) /\ WF_vars(Frozen3 /\ SPoll) /\ WF_vars(Frozen3 /\ SKillStep) /\ WF_vars(Frozen3 /\ SWaitStep)
 
 SimTypeOK == /\ srs \in {"none", "submitted", "executing", "finished"} /\ sos \in {"none", "submitted", "executing", "finished"}
-             /\ srun \in {"none", "new", "sleep", "x1", "cwait", "u1", "e2", "e3", "f1", "k1", "done"}
+             /\ srun \in {"none", "new", "sleep", "x1", "cwait", "u1", "e2", "e2n", "e3", "f1", "k1", "e4", "rel", "done"}
              /\ spoll \in {"none", "new", "a", "b", "c", "sleep", "done"} /\ scall \in {"idle", "new", "k1", "lock", "done"}
 SimEventOnlyWhenDead == sfe => ~SimAlive
 SimObservedFollowsReal == (sos = "finished" => srs = "finished") /\ (sos = "executing" => srs \in {"executing", "finished"})
 SimObservedCodeWasReal == sor \in {NoRc, scode, -9, 1}
+SimKilledOrExpected == (srun = "done" /\ ~sunmet) => srr \in {scode, -9}
 SimDeadIsFinal == [][sfe => (sfe' /\ sos' = sos /\ sor' = sor)]_vars      \* what the owner sees is final once the event is set
 SimWaitReturnsDead == swait = "done" => sseen[1] = "F"
 SimEndLeadsToEvent == (srs = "finished") ~> (sfe \/ snpoll = MaxSimPoll)
@@ -619,11 +671,13 @@ Kinds == {"fs", "sys", "msys", "other", "a:fs", "a:sys", "a:msys", "a:other"}
 IsSystem(kd) == kd \in {"fs", "sys", "a:fs", "a:sys"}      \* runtime.errors.systemErrors = [builtin SystemError, FilesystemInconsistencyError]
 Stable(tf) == ~\E i \in 1..Len(trk) : IsSystem(trk[i][2]) /\ trk[i][1] > tnow - tf
 TrkInit == TaskIdle /\ MonIdle /\ PerIdle /\ SimIdle /\ tabc = 0 /\ trk = <<>> /\ tnow = 0
-TrkAdd(kd) == Len(trk) < 2 /\ trk' = Append(trk, <<tnow, kd>>) /\ tnow' = tnow
-TrkPass(dt) == tnow < 400 /\ tnow' = tnow + dt /\ trk' = trk
-TrkNext == /\ UNCHANGED <<taskVars, monVars, perVars, simVars, tabc>>
-           /\ \/ \E kd \in Kinds : TrkAdd(kd)
-              \/ \E dt \in {29, 31, 150, 200} : TrkPass(dt)
+Gaps == {0, 29, 30, 31, 119, 120, 121, 179, 180, 181}
+\* tabc is the phase: 0 add, 1 time passes, 2 add or not, 3 time passes, 4 ask
+TrkNext == /\ UNCHANGED <<taskVars, monVars, perVars, simVars>>
+           /\ tabc < 4 /\ tabc' = tabc + 1
+           /\ CASE tabc = 0 -> \E kd \in Kinds : trk' = Append(trk, <<tnow, kd>>) /\ tnow' = tnow
+                [] tabc = 2 -> (\E kd \in Kinds : trk' = Append(trk, <<tnow, kd>>) /\ tnow' = tnow) \/ UNCHANGED <<trk, tnow>>
+                [] OTHER -> \E dt \in Gaps : tnow' = tnow + dt /\ trk' = trk
 TrkSpec == TrkInit /\ [][TrkNext]_vars
-TrkEmit == PrintT(ToJson([trk |-> trk, now |-> tnow, stable |-> [tf \in {30, 120, 180} |-> Stable(tf)]]))
+TrkEmit == tabc = 4 => PrintT(ToJson([trk |-> trk, now |-> tnow, stable |-> [tf \in {30, 120, 180} |-> Stable(tf)]]))
 =============================================================================
